@@ -1,8 +1,10 @@
 package desync
 
 import (
+	"bytes"
 	"encoding/binary"
 	"io"
+	"math"
 )
 
 type reader struct {
@@ -22,11 +24,32 @@ func (r reader) ReadUint64() (uint64, error) {
 // ReadN returns the next n bytes from the reader or an error if there are not
 // enough left
 func (r reader) ReadN(n uint64) ([]byte, error) {
-	b := make([]byte, n)
-	if _, err := io.ReadFull(r, b); err != nil {
+	if n > math.MaxInt64 {
+		return nil, io.ErrUnexpectedEOF
+	}
+	// n typically comes from a length field in the stream. Let the buffer grow
+	// with the data that is actually there instead of allocating n bytes.
+	var buf bytes.Buffer
+	if _, err := io.CopyN(&buf, r, int64(n)); err != nil {
+		if err == io.EOF {
+			err = io.ErrUnexpectedEOF
+		}
 		return nil, err
 	}
-	return b, nil
+	return buf.Bytes(), nil
+}
+
+// ReadString returns the next n bytes from the reader without the terminating
+// zero byte that strings have in the casync format.
+func (r reader) ReadString(n uint64) ([]byte, error) {
+	if n < 1 {
+		return nil, InvalidFormat{"missing string terminator"}
+	}
+	b, err := r.ReadN(n)
+	if err != nil {
+		return nil, err
+	}
+	return b[:len(b)-1], nil
 }
 
 // ReadID reads and returns a ChunkID
